@@ -16,6 +16,8 @@ import time
 import traceback
 
 ROOT = os.path.dirname(os.path.dirname(os.path.abspath(__file__)))
+# runs against a scratch tree (seeded-mutant self test) must not touch the committed evidence
+OUT = os.environ.get('PYVC_OUT') or ROOT
 
 
 def setup_paths():
@@ -216,7 +218,7 @@ def run(pid, tier, seed, replay_only=None):
             replays.append((c.qualname, failure))
 
     # ---- report ------------------------------------------------------------
-    os.makedirs(os.path.join(ROOT, 'replays', pid), exist_ok=True)
+    os.makedirs(os.path.join(OUT, 'replays', pid), exist_ok=True)
     kf = [f for f in known_findings() if f.get('property') == pid and f.get('status') == 'open']
     violations = []
     known_hits = []
@@ -224,10 +226,10 @@ def run(pid, tier, seed, replay_only=None):
 
     def write_replay(name, payload):
         h = hashlib.sha1(name.encode()).hexdigest()[:10]
-        path = os.path.join(ROOT, 'replays', pid, '%s.json' % h)
+        path = os.path.join(OUT, 'replays', pid, '%s.json' % h)
         with open(path, 'w') as f:
             json.dump(jsonable(payload), f, indent=1)
-        return os.path.relpath(path, ROOT)
+        return os.path.relpath(path, OUT)
 
     def is_known(ob_id, failure):
         for f in kf:
@@ -340,8 +342,8 @@ def run(pid, tier, seed, replay_only=None):
         'wall_s': round(time.time() - t0, 2),
         'violations': len(violations),
     }
-    os.makedirs(os.path.join(ROOT, 'evidence'), exist_ok=True)
-    with open(os.path.join(ROOT, 'evidence', pid + '.json'), 'w') as f:
+    os.makedirs(os.path.join(OUT, 'evidence'), exist_ok=True)
+    with open(os.path.join(OUT, 'evidence', pid + '.json'), 'w') as f:
         json.dump(jsonable(evidence), f, indent=1)
     solve.shutdown()
     print('%s: %d/%d obligations discharged, %d violation(s), %d undecided, %d native inputs, %.1fs'
